@@ -10,6 +10,7 @@
 -/
 import JaqVerif.Lemmas.C12Sort
 import JaqVerif.Lemmas.C12Flat
+import JaqVerif.Lemmas.C12More
 
 namespace Jaq.Coll
 
@@ -677,5 +678,314 @@ theorem round_spec_fixed (m : RMode) (n : Num) : roundNum true m n = roundSpecNu
         simp [h2]
         intro h; omega
     · simp [hf]
+
+/-! ## `bsearch` -/
+
+/-- **`bsearch($x)` on a sorted array**: any answer `r` allowed by the contract of
+`binary_search` (`BsearchPost`, checked on the real answers by the correspondence) is
+non-negative exactly when the array contains a value equal to `$x` — then `.[r] == $x` — and
+otherwise inserting `$x` at `-r-1` keeps the array sorted. -/
+theorem bsearch_post {α : Type} {c : α → α → Ordering} (h : TotalPreorder c) (xs : List α) (x : α) (r : Int)
+    (hs : xs.Pairwise (Le c)) (hp : BsearchPost c xs x r) :
+    ((∃ y ∈ xs, c y x = .eq) ↔ 0 ≤ r) ∧
+    (0 ≤ r → ∃ y, xs[r.toNat]? = some y ∧ c y x = .eq) ∧
+    (r < 0 → (xs.take (-1 - r).toNat ++ x :: xs.drop (-1 - r).toNat).Pairwise (Le c)) := by
+  refine ⟨?_, hp.1, ?_⟩
+  · constructor
+    · rintro ⟨y, hy, hyx⟩
+      apply Classical.byContradiction
+      intro hr
+      obtain ⟨_, hlt, hgt⟩ := hp.2 (by omega)
+      rw [← List.take_append_drop (-1 - r).toNat xs] at hy
+      rcases List.mem_append.1 hy with hy | hy
+      · have := hlt y hy; rw [hyx] at this; cases this
+      · have := hgt y hy; rw [hyx] at this; cases this
+    · intro hr
+      obtain ⟨y, hy, hyx⟩ := hp.1 hr
+      exact ⟨y, List.mem_of_getElem? hy, hyx⟩
+  · intro hr
+    obtain ⟨_, hlt, hgt⟩ := hp.2 hr
+    have hsplit := hs
+    rw [← List.take_append_drop (-1 - r).toNat xs] at hsplit
+    obtain ⟨ht, hd, hcross⟩ := List.pairwise_append.1 hsplit
+    refine List.pairwise_append.2 ⟨ht, List.pairwise_cons.2 ⟨?_, hd⟩, ?_⟩
+    · intro y hy
+      show c x y ≠ .gt
+      have := (h.gt_iff_lt y x).1 (hgt y hy)
+      rw [this]; simp
+    · intro a ha b hb
+      rcases List.mem_cons.1 hb with rfl | hb
+      · show c a b ≠ .gt
+        rw [hlt a ha]; simp
+      · exact hcross a ha b hb
+
+/-- the contract is satisfiable on every sorted array (by the leftmost search `bsearchRef`),
+and `bsearchOk` — which the check runs on the real answers — decides it -/
+theorem bsearch_post_exists {α : Type} {c : α → α → Ordering} (h : TotalPreorder c) (xs : List α) (x : α)
+    (hs : xs.Pairwise (Le c)) :
+    BsearchPost c xs x (bsearchRef c xs x) ∧ ∀ r, bsearchOk c xs x r = true ↔ BsearchPost c xs x r := by
+  refine ⟨?_, bsearchOk_iff xs x⟩
+  obtain ⟨T, D, hxs, hT, hD, hi⟩ := split_at_first_not (fun y => c y x == .lt) xs
+  have hcast : ∀ n : Nat, Int.ofNat n = (n : Int) := fun _ => rfl
+  unfold bsearchRef
+  simp only [hi, hcast]
+  subst hxs
+  have hidx : (T ++ D)[T.length]? = D.head? := by
+    rw [List.getElem?_append_right (Nat.le_refl _), Nat.sub_self, List.head?_eq_getElem?]
+  rw [hidx]
+  have hTlt : ∀ y ∈ T, c y x = .lt := fun y hy => by simpa using hT y hy
+  have htake : (T ++ D).take T.length = T := List.take_left
+  have hdrop : (T ++ D).drop T.length = D := List.drop_left
+  have hneg : ∀ D', (∀ y ∈ D', c y x = .gt) → D = D' → BsearchPost c (T ++ D) x (-1 - (T.length : Int)) := by
+    intro D' hgt hDD
+    subst hDD
+    have e : (-1 - (-1 - (T.length : Int))).toNat = T.length := by omega
+    refine ⟨fun h0 => by omega, fun _ => ?_⟩
+    rw [e, htake, hdrop]
+    exact ⟨by simp, hTlt, hgt⟩
+  cases hDc : D with
+  | nil =>
+    simp only [List.head?_nil]
+    exact hDc ▸ hneg [] (by simp) hDc
+  | cons y D' =>
+    simp only [List.head?_cons]
+    have hy : c y x ≠ .lt := by
+      have := hD y (by rw [hDc]; rfl)
+      simpa using this
+    by_cases hyx : c y x = .eq
+    · simp only [hyx, beq_self_eq_true, if_true]
+      refine ⟨fun _ => ⟨y, ?_, hyx⟩, fun h0 => by omega⟩
+      rw [Int.toNat_natCast, ← hDc, hidx, hDc]; rfl
+    · have hgt : c y x = .gt := by cases hc : c y x <;> simp_all
+      have hne : (c y x == .eq) = false := by simp [hgt]
+      simp only [hne, Bool.false_eq_true, if_false]
+      refine hDc ▸ hneg (y :: D') ?_ hDc
+      intro z hz
+      rcases List.mem_cons.1 hz with rfl | hz
+      · exact hgt
+      · have hsD : (y :: D').Pairwise (Le c) := by
+          have := (List.pairwise_append.1 hs).2.1
+          rwa [hDc] at this
+        have hyz : c y z ≠ .gt := (List.pairwise_cons.1 hsD).1 z hz
+        have hxy : c x y = .lt := (h.gt_iff_lt y x).1 hgt
+        exact (h.lt_iff_gt x z).1 (h.lt_of_lt_of_le hxy hyz)
+
+/-! ## prefixes and suffixes -/
+
+/-- **`startswith` / `endswith`** test for a byte prefix / suffix; **`ltrimstr` / `rtrimstr`**
+remove one occurrence of it and return other inputs unchanged (strings of either kind; the
+result keeps the kind of the input). -/
+theorem prefix_suffix_spec (a s : List UInt8) :
+    (∃ b, startswith (.tstr a) (.tstr s) = .ok (.bool b) ∧ (b = true ↔ ∃ r, a = s ++ r)) ∧
+    (∃ b, endswith (.tstr a) (.tstr s) = .ok (.bool b) ∧ (b = true ↔ ∃ r, a = r ++ s)) ∧
+    (∀ r, a = s ++ r → ltrimstr (.tstr a) (.tstr s) = .ok (.tstr r)) ∧
+    ((¬ ∃ r, a = s ++ r) → ltrimstr (.tstr a) (.tstr s) = .ok (.tstr a)) ∧
+    (∀ r, a = r ++ s → rtrimstr (.tstr a) (.tstr s) = .ok (.tstr r)) ∧
+    ((¬ ∃ r, a = r ++ s) → rtrimstr (.tstr a) (.tstr s) = .ok (.tstr a)) := by
+  refine ⟨⟨s.isPrefixOf a, rfl, isPrefixOf_iff_append s a⟩, ⟨isSuffixB s a, rfl, isSuffixB_iff_append s a⟩, ?_, ?_, ?_, ?_⟩
+  · rintro r rfl
+    unfold ltrimstr asBytes
+    simp only
+    rw [if_pos ((isPrefixOf_iff_append _ _).2 ⟨r, rfl⟩), List.drop_left]
+    rfl
+  · intro hno
+    unfold ltrimstr asBytes
+    simp only
+    rw [if_neg (fun hp => hno ((isPrefixOf_iff_append _ _).1 hp))]
+  · rintro r rfl
+    unfold rtrimstr asBytes
+    simp only
+    rw [if_pos ((isSuffixB_iff_append _ _).2 ⟨r, rfl⟩)]
+    have : (r ++ s).length - s.length = r.length := by simp
+    rw [this, List.take_left]
+    rfl
+  · intro hno
+    unfold rtrimstr asBytes
+    simp only
+    rw [if_neg (fun hp => hno ((isSuffixB_iff_append _ _).1 hp))]
+
+/-- non-strings on either side are an error ("cannot use … as string"), the input first -/
+theorem prefix_suffix_errors (v s : Val) (hv : asBytes v = none) :
+    startswith v s = .error (errStr v) ∧ endswith v s = .error (errStr v) ∧
+    ltrimstr v s = .error (errStr v) ∧ rtrimstr v s = .error (errStr v) := by
+  unfold startswith endswith ltrimstr rtrimstr
+  simp [hv]
+
+/-! ## `tonumber`, `toboolean` -/
+
+/- FULL STATEMENT (false on the current tree, finding F-12b; true for `toTypeSpec`):
+     theorem tonumber_spec p e v fj : toTypeCur p e v fj = toTypeSpec p e v fj                   -/
+
+/-- **`tonumber` returns numbers unchanged, and on a string parses it to a number, failing if
+this does not succeed** — on the current tree only when the JSON reader yields exactly one
+item (a value or an error); `toTypeSpec` is the manual's reading for every stream. -/
+theorem tonumber_spec_partial (p : Val → Bool) (e : Err) (v : Val) (fj : List ValR) :
+    (p v = true → toTypeCur p e v fj = [.ok v] ∧ toTypeSpec p e v fj = [.ok v]) ∧
+    (p v = false → ∀ r, fj = [r] → toTypeCur p e v fj = toTypeSpec p e v fj) ∧
+    (∃ r, toTypeSpec p e v fj = [r]) := by
+  refine ⟨?_, ?_, ?_⟩
+  · intro hp
+    simp [toTypeCur, toTypeSpec, hp]
+  · rintro hp r rfl
+    cases r with
+    | error er => simp [toTypeCur, toTypeSpec, hp, toTypeCur.go, firstError]
+    | ok y =>
+      by_cases hy : p y = true
+      · simp [toTypeCur, toTypeSpec, hp, toTypeCur.go, firstError, hy]
+      · simp [toTypeCur, toTypeSpec, hp, toTypeCur.go, firstError, hy]
+  · unfold toTypeSpec
+    split
+    · exact ⟨_, rfl⟩
+    · split
+      · exact ⟨_, rfl⟩
+      · split
+        · split <;> exact ⟨_, rfl⟩
+        · exact ⟨_, rfl⟩
+
+/-- the witnesses of F-12b on the model of the current tree: an empty parse yields no output,
+two parsed numbers yield two outputs -/
+theorem tonumber_spec_witnesses :
+    tonumber (.tstr []) [] = [] ∧
+    tonumber (.tstr [49, 32, 50]) [.ok (vInt 1), .ok (vInt 2)] = [.ok (vInt 1), .ok (vInt 2)] ∧
+    (toTypeSpec isnumber (.str "cannot parse as number") (.tstr []) []).length = 1 ∧
+    (toTypeSpec isnumber (.str "cannot parse as number") (.tstr [49, 32, 50]) [.ok (vInt 1), .ok (vInt 2)]).length = 1 :=
+  ⟨rfl, rfl, rfl, rfl⟩
+
+/-! ## `abs` -/
+
+/-- **`abs`** negates what is smaller than `0` (also `null` and booleans, where negation fails)
+and returns everything else unchanged; on machine integers it is the absolute value, as a
+big integer for `isize::MIN`. -/
+theorem abs_spec (v : Val) :
+    abs v = (if Val.cmp v (vInt 0) = .lt then Val.neg v else .ok v) ∧
+    (∀ i : Int, fitsIsize i = true → abs (vInt i) = .ok (.num (Num.ofInt (i.natAbs : Int)))) := by
+  constructor
+  · unfold abs vLt
+    by_cases h : Val.cmp v (vInt 0) = .lt <;> simp [h]
+  · intro i hfit
+    unfold abs vLt vInt
+    have hc : Val.cmp (.num (.int i)) (.num (.int 0)) = compare i 0 := by
+      unfold Val.cmp
+      simp [Val.size, Val.cmpF, Num.cmp, Num.undec]
+    rw [hc]
+    by_cases hi : i < 0
+    · have : compare i 0 = .lt := by simp [compare, compareOfLessAndEq, hi]
+      simp only [this, beq_self_eq_true, if_true, Val.neg, Num.neg]
+      have e : (i.natAbs : Int) = -i := by omega
+      rw [e]
+    · have hne : i ≠ 0 ∨ i = 0 := by omega
+      have hb : (compare i 0 == Ordering.lt) = false := by
+        simp only [compare, compareOfLessAndEq, hi, if_false]
+        split <;> rfl
+      simp only [hb, Bool.false_eq_true, if_false]
+      have e : (i.natAbs : Int) = i := by omega
+      rw [e]
+      unfold Num.ofInt
+      rw [hfit]
+      rfl
+
+/-! ## `contains`, `transpose` -/
+
+/-- **`contains`**: the four conditions of the manual (the last also covers values of
+different types and a byte string against a text string, compared with `==`) -/
+theorem contains_spec :
+    (∀ l r : List Val, contains (.arr l) (.arr r) = r.all fun rv => l.any fun lv => contains lv rv) ∧
+    (∀ l r : Obj.Entries, contains (.obj l) (.obj r) = r.all fun (k, rv) =>
+        match Obj.get l k with
+        | some lv => contains lv rv
+        | none => false) ∧
+    (∀ l r : List UInt8, (contains (.tstr l) (.tstr r) = true ↔ ∃ pre post, l = pre ++ r ++ post) ∧
+        (contains (.bstr l) (.bstr r) = true ↔ ∃ pre post, l = pre ++ r ++ post)) ∧
+    (∀ a b : Val, ctorName a ≠ ctorName b ∨ ctorName a = "null" ∨ ctorName a = "boolean" ∨ ctorName a = "number" →
+        contains a b = Val.eq a b) := by
+  refine ⟨?_, ?_, ?_, ?_⟩
+  · intro l r
+    unfold contains
+    have hsz : (Val.arr l).size + (Val.arr r).size = (Val.sizeList l + Val.sizeList r + 1) + 1 := by
+      simp [Val.size]; omega
+    rw [hsz, containsF_succ_arr]
+    apply all_congr_mem
+    intro rv hrv
+    apply any_congr_mem
+    intro lv hlv
+    have h1 := Val.size_lt_of_mem hrv
+    have h2 := Val.size_lt_of_mem hlv
+    exact containsF_mono _ _ lv rv (by omega) (Nat.le_refl _)
+  · intro l r
+    unfold contains
+    have hsz : (Val.obj l).size + (Val.obj r).size = (Val.sizeEntries l + Val.sizeEntries r + 1) + 1 := by
+      simp [Val.size]; omega
+    rw [hsz, containsF_succ_obj]
+    apply all_congr_mem
+    intro p hp
+    obtain ⟨k, rv⟩ := p
+    simp only
+    cases hg : Obj.get l k with
+    | none => rfl
+    | some lv =>
+      simp only
+      obtain ⟨k', hk'⟩ := get_mem hg
+      have h1 := Val.size_entry_of_mem hp
+      have h2 := Val.size_entry_of_mem hk'
+      exact containsF_mono _ _ lv rv (by omega) (Nat.le_refl _)
+  · intro l r
+    constructor
+    · show isInfixB r l = true ↔ _
+      exact isInfixB_iff r l
+    · show isInfixB r l = true ↔ _
+      exact isInfixB_iff r l
+  · intro a b h
+    unfold contains
+    obtain ⟨n, hn⟩ : ∃ n, a.size + b.size = n + 1 := ⟨a.size + b.size - 1, by have := Val.size_pos a; omega⟩
+    rw [hn]
+    cases a <;> cases b <;> first | rfl | (simp [ctorName] at h)
+
+
+/-- **`transpose`** of an array of arrays: as many rows as the longest input row is long, each
+as long as the input, with `t[x][y] = .[y][x]` (`null` where the input row is too short). -/
+theorem transpose_shape (rows : List (List Val)) :
+    transpose (.arr (rows.map .arr)) =
+      some (.arr ((List.range ((rows.map List.length).foldl max 0)).map fun x =>
+        .arr (rows.map fun r => r[x]?.getD .null))) := by
+  simp only [transpose, rowLens_ok]
+  have hrows : ∀ i, (rows.map Val.arr).map (rowGet i) = rows.map fun r => r[i]?.getD .null := by
+    intro i; rw [List.map_map]; rfl
+  cases rows with
+  | nil => rfl
+  | cons r rs =>
+    have hdec : decorate (ε := Unit) (fun v : Val => Except.ok [v]) ((r :: rs).map fun r => vInt (r.length : Int)) =
+        .ok (decN r.length :: (rs.map List.length).map decN) := by
+      rw [decorate_ok (key := fun v => [v]) (fun _ _ => rfl)]
+      simp [decN, List.map_map, Function.comp_def]
+    have hmax : maxByKey (ε := Unit) Val.null Val.cmp (fun v => Except.ok [v]) ((r :: rs).map fun r => vInt (r.length : Int)) =
+        .ok (vInt (((r :: rs).map List.length).foldl max 0 : Nat)) := by
+      unfold maxByKey cmpBy
+      rw [hdec]
+      simp only [foldl_max_vInt]
+      simp [decN, List.foldl_cons]
+    rw [hmax]
+    simp only [vInt, Int.toNat_natCast, hrows]
+
+
+/-! ## the hypotheses are satisfiable -/
+
+/-- the order laws hold for a concrete comparison: `compare` / `==` on `Int` … -/
+example : OrderLaws (fun a b : Int => compare a b) (fun a b => a == b) := intLaws
+
+/-- … so e.g. `group_by(., .)` of `[3, 1, 3, 2, 1]` (elements as their own two-output key) is
+`[[1, 1], [2], [3, 3]]`, an instance of `groupBy_partition_maximal_runs` with a key function
+that succeeds everywhere -/
+example : groupByKey (ε := Unit) (fun a b : Int => compare a b) (fun a b => a == b) (fun x => .ok [x, x]) [3, 1, 3, 2, 1] =
+    .ok [[1, 1], [2], [3, 3]] := by rfl
+
+example : ∃ gs, groupByKey (ε := Unit) (fun a b : Int => compare a b) (fun a b => a == b) (fun x => .ok [x, x]) [3, 1, 3, 2, 1] = .ok gs ∧
+    gs.flatten = sortedBy (fun a b : Int => compare a b) (fun x => [x, x]) [3, 1, 3, 2, 1] ∧ (∀ g ∈ gs, g ≠ []) := by
+  obtain ⟨gs, h1, h2, h3, _⟩ := groupBy_partition_maximal_runs (kf := fun x => (.ok [x, x] : Except Unit (List Int)))
+    (key := fun x => [x, x]) intLaws [3, 1, 3, 2, 1] (fun _ _ => rfl)
+  exact ⟨gs, h1, h2, h3⟩
+
+/-- a sorted array and an answer satisfying the `binary_search` contract: `[0, 4, 8] | bsearch(6)` → `-3` -/
+example : BsearchPost (fun a b : Int => compare a b) [0, 4, 8] 6 (-3) ∧ bsearchRef (fun a b : Int => compare a b) [0, 4, 8] 6 = -3 := by
+  refine ⟨(bsearchOk_iff _ _ _).1 (by decide), by decide⟩
 
 end Jaq.Coll
